@@ -33,6 +33,9 @@ impl HistProp {
             if case.cfg.contains_emb() {
                 st.label("stack_with_embedded_lower_layer");
             }
+            if r.summary.twin_views > 0 {
+                st.label_n("second_overlay_instance_views_compared", r.summary.twin_views as u64);
+            }
             if r.summary.shadowed_file_dirs > 0 {
                 st.label("layers_with_directory_over_shadowed_file");
             }
